@@ -1,6 +1,7 @@
 package checks
 
 import (
+	"crypto/sha256"
 	"encoding/json"
 	"fmt"
 	"math/big"
@@ -123,8 +124,32 @@ func (t *momTree) ensureLocked(path []string) error {
 	t.segs[pkey(path)] = seg
 	t.dumps[pkey(path)] = n.Dump()
 	t.pools[pkey(path)] = len(n.Chain.GetAllUncommittedAccountBlocks())
-	t.prods[pkey(path)] = nextProducers(n, 12)
+	t.prods[pkey(path)] = nextProducers(n, 12) + consStats(n)
 	return nil
+}
+
+// consStats renders the consensus statistics a node serves: per-epoch pillar statistics, weights, delegations.
+func consStats(n *node.Node) (out string) {
+	defer func() {
+		if r := recover(); r != nil {
+			out += fmt.Sprintf(" PANIC:%v", r)
+		}
+	}()
+	reader := n.Cons.FrontierPillarReader()
+	tick := reader.EpochTicker().ToTick(*n.Frontier().Timestamp)
+	var sb strings.Builder
+	for e := uint64(0); e <= tick; e++ {
+		st, err := reader.EpochStats(e)
+		js, _ := json.Marshal(st)
+		fmt.Fprintf(&sb, " epoch%d:%s/%v", e, js, err)
+		d, err := reader.GetPillarDelegationsByEpoch(e)
+		js, _ = json.Marshal(d)
+		fmt.Fprintf(&sb, " deleg%d:%x/%v", e, sha256.Sum256(js), err)
+	}
+	w, err := reader.GetPillarWeights()
+	js, _ := json.Marshal(w)
+	fmt.Fprintf(&sb, " weights:%s/%v", js, err)
+	return sb.String()
 }
 
 func nextProducers(n *node.Node, k int) string {
@@ -488,7 +513,7 @@ func syncReplay(run *core.Run, tree *momTree, b *syncBehaviour, n int64, st *syn
 		if np := len(f.Chain.GetAllUncommittedAccountBlocks()); np != 0 && !sawInvalid && !o.gossip && !o.local && !o.rival {
 			report("C06", "pool-not-empty", fmt.Sprintf("unconfirmed pool holds %d blocks, a node that only saw %v holds none", np, last.Chain))
 		}
-		if got := nextProducers(f, 12); got != wantProd {
+		if got := nextProducers(f, 12) + consStats(f); got != wantProd {
 			report("C06", "producers-differ-from-fresh-node", fmt.Sprintf("schedule of the next slots %s differs from a fresh node's %s on %v", got, wantProd, last.Chain))
 		}
 		for k := 1; k < len(last.Chain); k++ {
